@@ -107,8 +107,21 @@ for order_name, order in (("widest declared set first", sorted(NAMESETS, key=lam
     for names in order:            # and the other nesting: all expressions for one set, then the next set
         for expr in exprs[:: 3]:
             one_call(shared, expr, names, f"one shared evaluator, {order_name}, set-major")
+# an evaluator built with functions of its own must not widen what OTHER evaluators accept (state shared between evaluator objects)
+EXTRA = {"len": len, "open": open, "sorted": sorted}
+custom = ExpressionEvaluator(allowed_funcs=dict(EXTRA))
+for e_ in ("len((t, u))", "sorted((t, u))", "t + 1", "abs(t)"):
+    try:
+        custom.compile(e_, {"t", "u"})
+    except ExpressionError:
+        pass
+    except Exception as ex:      # noqa
+        fail("rejected-with-an-exception-other-than-ExpressionError", expr=e_, names=["t", "u"], exc=type(ex).__name__, history="evaluator with functions of its own")
+for expr in ["len((t, u))", "open(t)", "sorted((t, u))", "t + len((u,))", "abs(open)", "max(t, len((u, u)))"] + exprs[:: 5]:
+    for names in ({"t", "u"}, {"t"}):
+        one_call(ExpressionEvaluator(), expr, names, "fresh evaluator created after one with extra functions compiled expressions")
 samples.append({"expressions": len(exprs), "declared_sets": len(NAMESETS), "accepted_pairs": len(distinct)})
-print(json.dumps({"bound": f"{len(exprs)} expressions (benign forms + {len(ESCAPES)} escape idioms at {len(TEMPLATES)} positions) x {len(NAMESETS)} declared-variable sets x 4 call histories (fresh evaluator; one shared evaluator widest-first / narrowest-first / shuffled, expression-major and set-major)",
+print(json.dumps({"bound": f"{len(exprs)} expressions (benign forms + {len(ESCAPES)} escape idioms at {len(TEMPLATES)} positions) x {len(NAMESETS)} declared-variable sets x 4 call histories (fresh evaluator; one shared evaluator widest-first / narrowest-first / shuffled, expression-major and set-major) + fresh evaluators after an evaluator with functions of its own was used",
                   "evaluations": evaluations, "distinct_nontrivial": len(distinct),
                   "rule": "distinct = (expression, declared set) pairs that compile accepted; verdict compared with a reference acceptor written from the property statement, returned function applied to integers",
                   "failures": failures[:30], "samples": samples}, default=str))
